@@ -17,6 +17,7 @@ RULE = (
     'final displacement or a non-orthogonal cell, and at least one face crossing; distinct = SHA-1 of the walk.'
 )
 RULE += ' Added in rounds 6-9: result retention; re-query after extend(); a second run of the same shape analysed while the first result is held; atomic-unit and arbitrary time steps.'
+RULE += ' Round 12: one run (four in the thorough tier) of 1.45-1.9 million atom-frames with 3, 5 or 7 atoms, compared with the direct time-origin average at ~50 sampled lags.'
 ASSUMPTIONS = [
     'total time is n_frames x time_step (the library\'s documented total_time)',
     'FFT round-off: comparison at rtol 1e-9 of the largest MSD value of the case',
@@ -29,7 +30,7 @@ _mon = Monitor()
 
 
 def units(tier):
-    return [{'k': 'rand', 'i': i} for i in range(N_CASES[tier])]
+    return [{'k': 'rand', 'i': i} for i in range(N_CASES[tier])] + [{'k': 'long', 'i': i} for i in range(1 if tier == 'quick' else 4)]
 
 
 def setup(ctx):
@@ -48,7 +49,46 @@ def teardown(ctx):
     _mon.detach_all()
 
 
+LONG_DEV = [0.0]
+
+
+def run_long(unit, rng, ctx):
+    """Production-size input: 1.45-1.9 million atom-frames (3, 5 or 7 atoms), MSD compared at sampled lags."""
+    kind, rot, m = geom.random_lattice(rng)
+    N = int(rng.choice([3, 5, 7]))
+    T = int(rng.integers(1_450_000, 1_900_000)) // N + 1
+    U = gen.random_walk(rng, T, N, max_step=0.05)
+    traj = gen.make_trajectory(m, gen.species_objects(['Li'] * N), U - np.floor(U), time_step=2e-15, presentation='plain')
+    got = np.asarray(traj.mean_squared_displacement())
+    what = f'{kind}{"/rot" if rot else ""} long run T={T} N={N}'
+    ctx.check(got.shape == (N, T), f'{what}: MSD shape {got.shape} != (atoms, lags) {(N, T)}')
+    if got.shape != (N, T):
+        ctx.case(None, False)
+        return
+    cart = (U - U[:1]) @ m
+    lags = sorted({0, 1, 2, 3, T // 2, T - 2, T - 1, *[int(x) for x in rng.integers(1, T, size=30)], *[int(x) for x in 10 ** rng.uniform(0.5, np.log10(T - 1), size=12)]})
+    want = np.zeros((N, len(lags)))
+    for k_, tau in enumerate(lags):
+        diff = cart[tau:] - cart[: T - tau]
+        want[:, k_] = np.mean(np.einsum('tad,tad->ta', diff, diff), axis=0)
+    dev = np.abs(got[:, lags] - want)
+    # tolerance: the documented algorithm (FFT autocorrelation + running sums of |r|^2) works on sums of the size
+    # sum_t |r(t)|^2 and divides by the number of time origins; its rounding noise is ~eps sqrt(T) sum|r|^2 / (T - tau)
+    # (measured 0.5 x that on the unchanged code); 32 x that, plus 1e-9 of the largest squared excursion, is allowed
+    r2 = np.einsum('tad,tad->ta', cart, cart)
+    scale = max(float(r2.max()), 1e-12)
+    tol = 1e-9 * scale + 32 * np.finfo(float).eps * np.sqrt(T) * r2.sum(axis=0)[:, None] / (T - np.array(lags))[None, :]
+    i, k_ = np.unravel_index(np.argmax(dev / tol), dev.shape)
+    LONG_DEV[0] = max(LONG_DEV[0], float((dev / tol).max()))
+    ctx.check(bool(np.all(np.isfinite(got))) and bool(np.all(dev <= tol)), f'{what}: msd[atom {i}, lag {lags[k_]}]={got[i, lags[k_]]!r} but the time-origin average of |r(t+tau)-r(t)|^2 is {want[i, k_]!r} (checked at {len(lags)} lags)', {'matrix': m})
+    ctx.count('runs_with_more_than_1.4e6_atom_frames')
+    ctx.count('lags_checked_on_long_runs', len(lags))
+    ctx.case(f'long{unit["i"]}', True, sample={'kind': 'long', 'frames': T, 'atoms': N, 'lags_checked': len(lags)})
+
+
 def run_unit(unit, rng, ctx):
+    if unit.get('k') == 'long':
+        return run_long(unit, rng, ctx)
     kind, rot, m = geom.random_lattice(rng)
     big = ctx.tier == 'thorough' and unit['i'] % 50 == 0
     T = int(rng.integers(500, 2001)) if big else int(rng.integers(2, 151))
